@@ -259,6 +259,30 @@ def prove_after_closed(src_root, ex: Explorer):
         ctx.prove(f'C10._send.failure-closes[{oc}]', raised == 'ConnectionWriteError' and w.seq(c) == ['CLOSING', 'CLOSED'] and not any(x is c for x in w.registry))
     ex.run(send_failure, '_send-failure')
 
+    def send_drains(ctx: Ctx):
+        """_send returns only after drain() was awaited: write() never fails by itself, a reset or a stalled peer is reported by drain()
+        (then C10._send.failure-closes) - a _send that returns without it reports success for bytes that may never leave"""
+        it = mk(src_root, ctx)
+        w = NetWorld(it, ctx)
+        c = w.data_connection(state='CONNECTED')
+        w.registry.append(c)
+        buffered = [0, 4096][ctx.choose(2, 'write-buffer')]
+        order = []
+        wr = c.attrs['_writer']
+        wr.attrs['write'] = Recorder('write', fn=lambda it2, a, k: order.append('write'))
+        wr.attrs['drain'] = Recorder('drain', fn=lambda it2, a, k: order.append('drain'), is_async=True)
+        wr.attrs['transport'] = Stub('transport', get_write_buffer_size=Recorder('get_write_buffer_size', ret=buffered),
+                                     is_closing=Recorder('is_closing', ret=False))
+        timeout = [None, 1.0][ctx.choose(2, 'timeout')]
+        try:
+            run(it, it.getattr(c, '_send'), Rope.lit(b'abc'), timeout=timeout)
+        except PyRaise as pr:
+            ctx.fail(f'C10._send.drains[buffered={buffered},timeout={timeout}]', repr(pr.exc))
+            return
+        ctx.prove(f'C10._send.drains[buffered={buffered},timeout={timeout}]', order == ['write', 'drain'],
+                  f'_send returned after {order}: without drain() a connection reset during the send goes unnoticed')
+    ex.run(send_drains, '_send-drains')
+
 
 def prove_accept(src_root, ex: Explorer):
     outcomes = ['initialized', 'closed-by-handler']
